@@ -208,6 +208,10 @@ def run(prop: str, tier: str) -> int:
     res.stage("CodecMC (round-trip theorems of the encoders used by the grids)", dict(r.summary(), cached=r.cached))
     res.coverage["spec_states"] = r.distinct
 
+    if prop == "C13":
+        from . import helpers_stage
+
+        helpers_stage.run(res, "pad", tier)
     rng = drivers.rng_for("decode:" + prop)
     md = Multidecoder()
     work = scratch("dec")
